@@ -322,6 +322,7 @@ func runC15(c *Check) {
 	c.outputUnitFromDisplayedValues()
 	c.unitFromDisplayedNodeValues()
 	c.signRestoredOnEveryReturn()
+	c.aliasMatchesAliasesOnly()
 }
 
 // R8: two value types with different units are compatible only when one and the same
@@ -896,7 +897,7 @@ func (c *Check) sniffNormalisation() (func(string) string, string) {
 					switch sc.String() {
 					case "strings.ToLower":
 						lower = true
-					case "strings.TrimSuffix":
+					case "strings.TrimSuffix", "strings.CutSuffix":
 						suffix, _ = constString(x.Call.Args[1])
 						// the model below lower-cases first: the code must too, or an upper-case
 						// plural ("BYTES") keeps its S and is not recognised
